@@ -6,7 +6,7 @@ V = os.path.dirname(os.path.dirname(os.path.abspath(__file__)))
 
 # id -> (category, technique, level text, level note, design ref)
 CHECKS = {
- "C01": ("exploration", "content-oracle monitor (every byte = F(stream, offset)) at every Recv/Read return over seeded hostile network simulations in virtual time, at raw-core and session level",
+ "C01": ("exploration", "content-oracle monitor (every byte = F(stream, offset)) at every Recv/Read return over seeded hostile network simulations in virtual time, at raw-core and session level; recorded concurrent-caller histories decided by a polynomial FIFO linearizability oracle and cross-checked offline with porcupine",
    "Held on the executions produced: thousands of seeded scenarios of real cores and real sessions over a scripted lossy/duplicating/reordering network with a byte-exact oracle at every read. Reaches fate sequences, configurations and read/write size patterns the suite never samples; not a proof.",
    "testing/synctest virtual time; Go scheduler picks the interleavings inside one virtual instant; trusted: harness content function and network model", "DESIGN.md §3 C01"),
  "C02": ("fault_enumeration", "exhaustive enumeration (by running) of the fates of the first K datagrams + sampled outage profiles, bounded-progress oracle in virtual time",
